@@ -181,12 +181,17 @@ class GatedLinearUnit(Transform):
     def forward(self, inputs, context=None):
         gate = torch.sigmoid(context)
         # return inputs * (1 + gate), torch.log(torch.ones_like(gate) + gate).reshape(-1)
-        return inputs * gate, torch.log(gate).reshape(-1)
+        outputs = inputs * gate
+        # Every gated feature contributes log(gate) to the log-determinant.
+        logabsdet = torchutils.sum_except_batch(torch.log(gate).expand_as(outputs))
+        return outputs, logabsdet
 
     def inverse(self, inputs, context=None):
         gate = torch.sigmoid(context)
         # return inputs / (1 + gate), - torch.log(torch.ones_like(gate) + gate).reshape(-1)
-        return inputs / gate, -torch.log(gate).reshape(-1)
+        outputs = inputs / gate
+        logabsdet = -torchutils.sum_except_batch(torch.log(gate).expand_as(outputs))
+        return outputs, logabsdet
 
 
 class CauchyCDF(Transform):
